@@ -3,6 +3,8 @@ import XmppModel.Model.IbbReader
 import XmppModel.Model.IbbSend
 import XmppModel.Lemmas.Ibb
 import XmppModel.Lemmas.IbbSend
+import XmppModel.Model.IbbClose
+import XmppModel.Generated.C15
 /-!
 # C15 — an in-band bytestream is a reliable ordered byte pipe
 
@@ -253,6 +255,42 @@ theorem C15_reader_lost_wakeup_in_snapshot :
   exact .step h2 (a := .enterWait) (by decide)
 
 end Reader
+
+/-! ### `Close` takes the receiving side down on every exit path (regenerated control points) -/
+section CloseProgram
+open XmppModel.IbbClose
+
+/-- over the control points regenerated from `ibb/conn.go` on this run: whatever step of `Close`
+fails (flush refused, encoder close, close request not sent / not answered in time) or none, the
+deferred `closeRead` has run when `Close` returns -/
+theorem C15_close_always_ends_read :
+    (Generated.C15.closeProgram.bind parseProgram).map alwaysClosesRead = some true := by decide
+
+/-- the same for the peer-initiated close (`closeNoNotify`) -/
+theorem C15_close_no_notify_always_ends_read :
+    (Generated.C15.closeNoNotifyProgram.bind parseProgram).map alwaysClosesRead = some true := by decide
+
+/-- both routines mark the connection closed before anything can fail -/
+theorem C15_close_sets_closed_first :
+    ((Generated.C15.closeProgram.bind parseProgram).map fun p => p.head? == some Stmt.setClosed) = some true ∧
+    ((Generated.C15.closeNoNotifyProgram.bind parseProgram).map fun p => p.head? == some Stmt.setClosed) = some true := by
+  decide
+
+/-- what `closeRead` having run means for a reader: no `Read` blocks any more — buffered bytes
+first, then end-of-file (`C15_drain_then_eof`), and later packets are refused -/
+theorem C15_read_returns_after_close (cd : Codec) (s : RState) (n : Nat) (p : Packet) :
+    readOut (Ibb.close s) n ≠ .blocks ∧ recv cd (Ibb.close s) p = (Ibb.close s, .itemNotFound) :=
+  ⟨(C15_drain_then_eof s n).2.1, C15_closed_refuses cd s p⟩
+
+/-- negation witness: taking the receiving side down only after the peer acknowledged the close
+request leaves it up whenever an earlier step fails -/
+theorem C15_close_after_ack_only_fails :
+    alwaysClosesRead [.setClosed, .flush, .encClose, .other, .sendCloseIQ, .closeReadNow, .closeResp] = false := by
+  decide
+
+example : (run (some 2) closeProgram).rxClosed = true ∧ (run (some 2) closeProgram).failed = true := by decide
+
+end CloseProgram
 
 /-! ### the Lean base64 codec: both laws, and the pipe without any codec hypothesis -/
 
